@@ -43,14 +43,18 @@ def pair_specs(draw, numeric=False):
         rho = {"mode": "abs", "value": draw(log_floats(1e-4, 1.0))}
     elif kind == "shadow_direct":
         za, zb = draw(floats(lo, hi)), draw(floats(lo, hi))
-        eps = draw(st.sampled_from([1e-2, 1e-3, 1e-5, 1e-8]))
+        # (closer than 1e-3 to the boundary rho(beta) has an inverse-square-root slope and the
+        # tracer links its branches linearly: nothing can be decided there, see DESIGN 7.3)
+        eps = draw(st.sampled_from([3e-2, 1e-2, 3e-3, 1e-3]))
         rho = {"mode": "rel_direct_max", "q": 1.0 + draw(st.sampled_from([-1.0, 1.0])) * eps}
     elif kind == "shadow_indirect":
         za, zb = draw(floats(lo, hi)), draw(floats(lo, hi))
-        eps = draw(st.sampled_from([1e-1, 1e-2, 1e-3, 1e-5]))
+        eps = draw(st.sampled_from([1e-1, 3e-2, 1e-2]))
         rho = {"mode": "rel_indirect_max", "q": 1.0 - eps}
     elif kind == "equal_depth":
-        za = zb = draw(floats(lo, hi))
+        # (only where the index profile still resolves the metre-scale hop of such a pair)
+        z_res = max(lo, math.log(1e-7 / ice["k"]) / ice["a"])
+        za = zb = draw(floats(z_res, hi))
     elif kind == "bounds":
         za = draw(st.sampled_from([hi, lo, draw(floats(lo, hi))]))
         zb = draw(st.sampled_from([hi, lo, draw(floats(lo, hi))]))
@@ -418,7 +422,10 @@ def check_analytic_shoot(case, rec):
                 geom, mark)
         require(abs(sh["tof"] - T) <= 1e-4 * T + ice_spec["n0"] * (sh["miss"] + 1e-3 + cond) / C,
                 "solution %d: tof %r but integrated n ds/c is %r; %s%s", idx, T, sh["tof"], geom, mark)
-        grazing = abs(sh["pz"]) / sh["n_end"] < 1e-3 or abs(e[2]) < 1e-3
+        # (the side of the receiver on which the ray turns over is decidable only when the
+        # arrival and launch angles differ from horizontal by more than the angular budget)
+        g_ang = max(1e-3, 3 * dth)
+        grazing = abs(sh["pz"]) / sh["n_end"] < g_ang or abs(e[2]) < g_ang
         # an endpoint on the surface makes the reflection coincide with the endpoint
         grazing = grazing or max(f[2], t[2]) >= sorted(ice_spec["range"])[1] - 1e-2 or surface_grazing
         if not grazing and sh["miss"] < 0.5 * max(1.0, 0.01 * L):
